@@ -100,7 +100,7 @@ theorem foreign_set (ks : List Str) (l : List (Str × Str)) (k v : Str) (hk : k 
     simp only [ListSpec.set]
     split
     · rename_i hf
-      simp [foreign, List.filter_cons, hf, hk]
+      simp [foreign, hf, hk]
     · simp only [foreign, List.filter_cons] at ih ⊢
       rw [ih]
 
@@ -113,5 +113,64 @@ theorem foreign_remove (ks : List Str) (l : List (Str × Str)) (k : Str) (hk : k
   by_cases hf : f.1 = k
   · simp [hf, hk]
   · simp [hf]
+
+/-! ### the lossy paragraph's edits are the list model of C04 -/
+
+theorem pset_eq_set (l : List (Str × Str)) (k v : Str) : Deb.Lossy.pset l k v = ListSpec.set l k v := by
+  induction l with
+  | nil => rfl
+  | cons f fs ih =>
+    simp only [Deb.Lossy.pset, ListSpec.set]
+    split
+    · rename_i hf; rw [hf]
+    · rw [ih]
+
+theorem premove_eq_remove (l : List (Str × Str)) (k : Str) : Deb.Lossy.premove l k = ListSpec.remove l k := by
+  unfold Deb.Lossy.premove ListSpec.remove
+  apply List.filter_congr
+  intro f _
+  by_cases hf : f.1 = k <;> simp [hf]
+
+theorem pget_eq_lookupFirst (l : List (Str × Str)) (k : Str) : Deb.Lossy.pget l k = lookupFirst l k := rfl
+
+/-- the items of any node are the items of its children -/
+theorem items_children (p : DNode) : items p = pitems p.children := by
+  cases p with
+  | tok κ t => rfl
+  | node κ cs => exact items_node_any κ cs
+
+/-! ### two edits through the same handle -/
+
+theorem onPara_onPara (d : Doc) (h : Nat) (f g : List DNode → List DNode) :
+    (d.onPara h f).onPara h g = d.onPara h (fun cs => g (f cs)) := by
+  unfold Doc.onPara
+  cases hh : d.handles[h]? with
+  | none => simp only [hh]
+  | some o =>
+    cases o with
+    | none => simp only [hh]
+    | some i =>
+      simp only []
+      cases hk : d.kids[i]? with
+      | none => simp only [hh, hk]
+      | some n =>
+        have hlt : i < d.kids.length := (List.getElem?_eq_some_iff.mp hk).1
+        cases n with
+        | tok κ t => simp only [hh, hk]
+        | node κ cs =>
+          cases κ <;> simp only [hh, hk, List.getElem?_set_self hlt, List.set_set]
+
+theorem onPara_id (d : Doc) (h : Nat) : d.onPara h (fun cs => cs) = d := by
+  unfold Doc.onPara
+  split
+  · rename_i i hi
+    split
+    · rename_i cs hk
+      have : d.kids.set i (.node .PARAGRAPH cs) = d.kids := by
+        obtain ⟨hlt, he⟩ := List.getElem?_eq_some_iff.mp hk
+        rw [← he]; exact List.set_getElem_self hlt
+      rw [this]
+    · rfl
+  · rfl
 
 end Deb822Verif.Derive.Lossless
